@@ -181,7 +181,8 @@ Proof.
         assert (O1 : Ord s1) by (apply (Ord_logs2 s s1 r w None); try reflexivity; assumption);
         apply (Ord_vpres s1); [exact O1|]; repeat match goal with |- context [if ?b then _ else _] => destruct b end; repeat vstrip.
     + destruct (alookup (r_mid r) (rmap s)) as [o|] eqn:Er.
-      * match goal with |- Ord (set processed (fun l => l ++ [(r, ?tag)]) _) =>
+      * match goal with |- context [if ?b then _ else _] => destruct b end; [apply (Ord_logs2 s _ r w None); try reflexivity; assumption|].
+        match goal with |- Ord (set processed (fun l => l ++ [(r, ?tag)]) _) =>
           set (s1 := s <| win := w |> <| processed ::= fun l => l ++ [(r, tag)] |>);
           assert (O1 : Ord s1) by (apply (Ord_logs2 s s1 r w tag); try reflexivity; assumption) end.
         apply (Ord_vpres s1); [exact O1|].
